@@ -36,7 +36,7 @@ const (
 	// response trailers (a second response HEADERS) on a stream without test name
 	c15GenUnnamedTrailers = false
 	// (c15-bytes only) response-direction DATA on a stream before its response HEADERS
-	c15GenDataBeforeResponseHeaders = false
+	c15GenDataBeforeResponseHeaders = true
 )
 
 func init() {
@@ -1420,6 +1420,12 @@ func c15Judge(cs *c15Case, seq []*c15Frame, end *c15End, got []c15Delivery) *c15
 			want[i] = 0 // still open (only when the connection did not end; not reached)
 		}
 	}
+	openName := map[string]bool{}
+	for i, s := range cs.Streams {
+		if s.Named && exps[i].unchecked {
+			openName[s.Name] = true // e.g. a "retry" opened on a connection that is going away
+		}
+	}
 	sort.Slice(items, func(i, j int) bool {
 		if items[i].idx != items[j].idx {
 			return items[i].idx < items[j].idx
@@ -1465,7 +1471,7 @@ func c15Judge(cs *c15Case, seq []*c15Frame, end *c15End, got []c15Delivery) *c15
 			}
 			continue
 		}
-		if want[i] == -1 {
+		if want[i] == -1 || openName[s.Name] {
 			continue
 		}
 		if len(ds) > 1 {
@@ -1901,7 +1907,7 @@ func c15BytesBody(tape *simrt.Tape, o simwork.Opts, res *simwork.Result) {
 	}
 	flatten()
 	sample.Order = append(sample.Order, muts...)
-	if a, b := c15KnownShapes(data); (a && !c15GenUnnamedTrailers) || (b && !c15GenDataBeforeResponseHeaders) {
+	if a, _ := c15KnownShapes(data); a && !c15GenUnnamedTrailers {
 		// input of a shape that runs into a reported defect: not executed
 		res.End, res.LogHash = "skipped-known-defect-shape", 1
 		res.Probes["skipped-known-defect-shape"]++
@@ -1941,6 +1947,21 @@ func c15BytesBody(tape *simrt.Tape, o simwork.Opts, res *simwork.Result) {
 	}
 	if d.panicked {
 		res.End = "panic"
+		// In this scenario the order of the two directions is free, so the shape "response
+		// DATA on a stream whose response HEADERS were not attributed to it" cannot be kept
+		// out of the input; the reported defect is recognised by its site instead.
+		if !c15GenDataBeforeResponseHeaders {
+			kept := res.Violations[:0]
+			for _, v := range res.Violations {
+				if v.Class == "c15/panic" && strings.Contains(v.Detail, "(*builder).add <- connectrpc.com/conformance/internal/tracer.(*dataTracer).emitUnfinished") {
+					res.Probes["known-defect:data-before-response-headers"]++
+					res.End = "panic-known-defect"
+					continue
+				}
+				kept = append(kept, v)
+			}
+			res.Violations = kept
+		}
 	}
 	res.LogHash = d.hash
 	res.Nontrivial = d.ncalls > 3
